@@ -39,6 +39,16 @@ def run_op(coal, op):
     k = op['kind']
     if k == 'attr':
         return tolist(get_attr(coal, op['path']))
+    if k == 'attr_after_plot':
+        # the matrix is plotted (both plot kinds, diagonals filled) and then read AGAIN from the distribution: displaying a
+        # statistic must not change it
+        import matplotlib.pyplot as plt
+        x = get_attr(coal, op['path'])
+        x.plot(show=False, fill_diagonal_entries=True)
+        plt.close('all')
+        x.plot_surface(show=False, fill_diagonal_entries=True)
+        plt.close('all')
+        return tolist(get_attr(coal, op['path']))
     dist = coal if op.get('route') == 'coal' else get_attr(coal, op.get('dist', 'tree_height'))
     rewards = None if op.get('rewards') is None else tuple(mk_reward(r) for r in op['rewards'])
     if k == 'moment':
